@@ -2,7 +2,7 @@
    "Handled" is read off the logged hook events (EvHandleEnter); "accepted" is the ghost list of
    everything the mailbox ever took in.  Every statement holds in every reachable state of every
    run (any schedule, fault pattern, capacity, number of actors and agents). *)
-From RS Require Import Tactics Spec Lifecycle Queue QueueStep CoreInv Delivery OpsSpec DeadLetters Exec Refine.
+From RS Require Import Tactics Spec Lifecycle Queue QueueStep CoreInv Delivery OpsSpec DeadLetters Exec Refine Chan ChanInv.
 
 (* the handler entries logged for an actor are exactly the envelopes its loop dequeued, in order *)
 Theorem C01_handled_is_dequeued : forall f ls a x,
@@ -79,6 +79,35 @@ Example C01_example_run :
     = Some (PDone (Completed [HvStop false; HvHandle 2; HvHandle 1; HvStart] false)).
 Proof. vm_compute. repeat split; reflexivity. Qed.
 
+(* ---- the same at permit granularity (Model/Chan.v: a send is "obtain a permit" then "push", with
+   anything in between, including the actor closing, draining and leaving) *)
+
+(* no message is taken twice *)
+Theorem C01_fine_at_most_once : forall w cap n ls, NoDup (c_handled (crun w cap n ls)).
+Proof. exact chan_handled_once. Qed.
+
+(* a message is ever in the channel exactly if its send returned Ok ... *)
+Theorem C01_fine_taken_iff_ok : forall w cap n ls i s k,
+  nth_error (c_senders (crun w cap n ls)) i = Some s ->
+  (In (i, k) (call (crun w cap n ls)) <-> In k (sn_ok s)).
+Proof. exact chan_taken_iff_ok. Qed.
+
+(* ... so one whose send returned Err (closed, or abandoned by a timeout) is never handled *)
+Theorem C01_fine_rejected_never_taken : forall w cap n ls i s k,
+  nth_error (c_senders (crun w cap n ls)) i = Some s -> In k (sn_err s) ->
+  ~ In (i, k) (call (crun w cap n ls)).
+Proof. exact chan_rejected_never_taken. Qed.
+
+(* and, with the exit protocol of the source, one whose send returned Ok was handled, was dropped by
+   the shutdown drain (its reply channel with it), or is still queued before a live receiver -
+   never lost *)
+Theorem C01_fine_ok_accounted : forall cap n ls i s k,
+  nth_error (c_senders (crun exit_waits_for_permits cap n ls)) i = Some s -> In k (sn_ok s) ->
+  In (i, k) (c_handled (crun exit_waits_for_permits cap n ls)) \/
+  In (i, k) (c_dropped (crun exit_waits_for_permits cap n ls)) \/
+  (In (i, k) (c_queue (crun exit_waits_for_permits cap n ls)) /\ c_phase (crun exit_waits_for_permits cap n ls) <> RExited).
+Proof. exact chan_ok_accounted. Qed.
+
 Check C01_handled_is_dequeued. Check C01_at_most_once. Check C01_rejected_never.
 Check C01_result_stable. Check C01_rejected_never_later. Check C01_driver_states_are_runs.
 Print Assumptions C01_driver_states_are_runs.
@@ -91,3 +120,8 @@ Print Assumptions C01_rejected_never.
 Print Assumptions C01_dequeued_prefix_of_accepted.
 Print Assumptions C01_stop_marker_drains.
 Print Assumptions C01_example_run.
+Check C01_fine_at_most_once. Check C01_fine_taken_iff_ok. Check C01_fine_rejected_never_taken. Check C01_fine_ok_accounted.
+Print Assumptions C01_fine_at_most_once.
+Print Assumptions C01_fine_taken_iff_ok.
+Print Assumptions C01_fine_rejected_never_taken.
+Print Assumptions C01_fine_ok_accounted.
